@@ -3,6 +3,7 @@ package props
 import (
 	"fmt"
 	"math"
+	"strings"
 	"testing"
 
 	rn "github.com/Trisia/randomness"
@@ -131,6 +132,18 @@ func checkC01(c statCase) (Outcome, error) {
 			return out, err
 		}
 		return out, cmpPQ("overlap", what+" (P2,Q2)", p2, q2, w2, w2, "C01")
+	case "overlapBytes":
+		p1, p2, q1, q2 := rn.OverlappingTemplateMatchingTestBytes(gen.Pack(bits), c.M)
+		w1, w2 := ref.Overlap(bits, c.M)
+		out.NonTrivial = nontrivialP(w1) || nontrivialP(w2)
+		if err := cmpPQ("overlap", what+" (P1,Q1)", p1, q1, w1, w1, "C01"); err != nil {
+			return out, err
+		}
+		return out, cmpPQ("overlap", what+" (P2,Q2)", p2, q2, w2, w2, "C01")
+	case "apenBytes":
+		gp, gq = rn.ApproximateEntropyTestBytes(gen.Pack(bits), c.M)
+		wp = ref.ApEn(bits, c.M)
+		wq = wp
 	case "apen":
 		gp, gq = rn.ApproximateEntropyProto(bits, c.M)
 		wp = ref.ApEn(bits, c.M)
@@ -145,11 +158,11 @@ func checkC01(c statCase) (Outcome, error) {
 var c01Boundaries = []int{1000, 10000, 100000}
 
 func genC01(t *rapid.T) statCase {
-	test := rapid.SampledFrom([]string{"monobit", "monobitBytes", "blockAuto", "block", "blockBytes", "poker", "pokerBytes", "overlap", "apen"}).Draw(t, "test")
+	test := rapid.SampledFrom([]string{"monobit", "monobitBytes", "blockAuto", "block", "blockBytes", "poker", "pokerBytes", "overlap", "apen", "overlap", "apen", "overlapBytes", "apenBytes"}).Draw(t, "test")
 	c := statCase{Test: test}
-	bytesEntry := test == "monobitBytes" || test == "blockBytes" || test == "pokerBytes"
+	bytesEntry := strings.HasSuffix(test, "Bytes")
 	minN := 100
-	if bytesEntry {
+	if test == "monobitBytes" || test == "blockBytes" || test == "pokerBytes" {
 		minN = 16
 	}
 	n := drawLen(t, minN, c01Boundaries)
@@ -175,15 +188,15 @@ func genC01(t *rapid.T) statCase {
 		}
 	case "poker", "pokerBytes":
 		c.M = rapid.SampledFrom([]int{2, 4, 8}).Draw(t, "m")
-	case "overlap":
+	case "overlap", "overlapBytes":
 		c.M = rapid.SampledFrom([]int{2, 3, 5, 7}).Draw(t, "m")
-	case "apen":
+	case "apen", "apenBytes":
 		c.M = rapid.SampledFrom([]int{2, 5, 7}).Draw(t, "m")
 	}
 	c.Seq = gen.DrawSeq(t, n, nil)
 	// exactly equidistributed inputs: whole periods of a de Bruijn cycle whose order exceeds the pattern length. The true
 	// statistic is exactly 0 there (P = 1), so the computed one is pure rounding noise of either sign.
-	if (test == "apen" || test == "overlap" || test == "poker" || test == "pokerBytes") && rapid.IntRange(0, 7).Draw(t, "equidistributed") == 0 {
+	if (strings.HasPrefix(test, "apen") || strings.HasPrefix(test, "overlap") || strings.HasPrefix(test, "poker")) && rapid.IntRange(0, 7).Draw(t, "equidistributed") == 0 {
 		order := rapid.IntRange(c.M+1, 13).Draw(t, "order")
 		periods := rapid.IntRange(1, 8).Draw(t, "periods")
 		for periods<<uint(order) < 100 {
